@@ -17,6 +17,12 @@ package pruner
 //@   ensures result1 == nil ==> heightRead == result0
 //@ extern func errors.Is
 
+// typed-bucket plumbing: key construction is pure, the range delete writes only to the store
+//@ extern func github.com/NethermindEth/juno/db/typed/prefix.(*PrefixedBucket).Prefix
+//@ extern func github.com/NethermindEth/juno/db/typed/prefix.(hasPrefix).DeleteRange
+//@ extern func github.com/NethermindEth/juno/db.AggregatedBloomFilterKey
+//@ extern func github.com/NethermindEth/juno/db.KeyValueRangeDeleter.DeleteRange
+
 // ---- the pruning entry point; its argument is the retention floor ---------------------
 //@ func (*Pruner).pruneUpto
 //@   trusted
